@@ -75,6 +75,16 @@ struct Entry {
 struct Model {
     entries: Vec<Entry>,
     clock: u64,
+    /// History digest kept in the dedup key although the reference cache itself does not need
+    /// it: how often entries were removed by expiry / by eviction / overwritten in place
+    /// (capped), and which keys were ever removed by expiry.  The implementation's hidden
+    /// bookkeeping (order queues, frequency maps) is touched by exactly these events, so two
+    /// histories with the same cache contents but different removal histories are explored
+    /// separately (a finer key is always sound; it only costs time).
+    expiries: u8,
+    evictions: u8,
+    overwrites: u8,
+    expired_keys: u8,
 }
 
 enum Lookup {
@@ -98,7 +108,7 @@ impl Model {
                 format!("k{}s{}a{}f{}", e.key, e.serial, age, e.freq)
             })
             .collect();
-        v.join(",")
+        format!("{}|x{}e{}o{}k{}", v.join(","), self.expiries, self.evictions, self.overwrites, self.expired_keys)
     }
     /// all admissible ways a lookup of `key` at `now` may go; returns (lookup, next model)
     fn lookups(&self, cfg: &CacheCfg, key: u8, now: u64) -> Vec<(Lookup, Model)> {
@@ -127,6 +137,8 @@ impl Model {
             // the expired entry is dropped at (or before) this lookup
             let mut m = self.clone();
             m.entries.remove(i);
+            m.expiries = (m.expiries + 1).min(2);
+            m.expired_keys |= 1 << key;
             out.push((Lookup::Miss, m));
         }
         out
@@ -144,6 +156,7 @@ impl Model {
             if cfg.policy == EvictionPolicy::Lru {
                 en.stamp = c;
             }
+            base.overwrites = (base.overwrites + 1).min(2);
             return vec![base];
         }
         let fresh = Entry { key, serial, at: now, freq: 1, stamp: c };
@@ -180,6 +193,7 @@ impl Model {
                 let mut m = base.clone();
                 m.entries.remove(v);
                 m.entries.push(fresh.clone());
+                m.evictions = (m.evictions + 1).min(2);
                 m
             })
             .collect()
@@ -190,6 +204,8 @@ impl Model {
 enum Op {
     Get { key: u8, ok: bool, svc: u8 },
     Tick,
+    /// wait until everything stored so far has expired
+    LongWait,
 }
 
 struct C10 {
@@ -208,8 +224,11 @@ impl C10 {
         for key in 0..self.cfg.keys.min(2) {
             v.push(Op::Get { key, ok: false, svc: 0 });
         }
-        if self.cfg.ttl.is_some() {
+        if let Some(t) = self.cfg.ttl {
             v.push(Op::Tick);
+            if t > Q {
+                v.push(Op::LongWait);
+            }
         }
         v
     }
@@ -219,6 +238,7 @@ fn op_name(o: &Op) -> String {
     match o {
         Op::Get { key, ok, svc } => format!("get_{}_inner_{}_via_{}", (b'A' + key) as char, if *ok { "ok" } else { "err" }, if *svc == 0 { "svc1" } else { "svc2" }),
         Op::Tick => format!("wait_{Q}ms"),
+        Op::LongWait => "wait_until_all_expired".to_string(),
     }
 }
 
@@ -238,7 +258,7 @@ impl SeqScenario for C10 {
         let alpha = self.alphabet();
         let mut w = World::new(0, Q, Mode::Script, 1);
         let (mut s1, mut s2) = cfg.build(w.inner.clone());
-        let mut cands = vec![Model { entries: vec![], clock: 0 }];
+        let mut cands = vec![Model { entries: vec![], clock: 0, expiries: 0, evictions: 0, overwrites: 0, expired_keys: 0 }];
         let mut viols = vec![];
         let mut log = vec![];
         let mut outcome = String::new();
@@ -252,6 +272,12 @@ impl SeqScenario for C10 {
                     w.advance(Q);
                     if last {
                         outcome = "tick".into();
+                    }
+                }
+                Op::LongWait => {
+                    w.advance(cfg.ttl.unwrap_or(0) + Q);
+                    if last {
+                        outcome = "long_wait".into();
                     }
                 }
                 Op::Get { key, ok, svc } => {
@@ -563,7 +589,7 @@ fn main() {
     for w in ["hit", "insert_into_full_cache", "several_admissible_states", "lookup_of_expired_entry", "lookup_exactly_at_ttl", "two_misses_on_one_key_in_flight"] {
         rep.require_witness(w);
     }
-    let depth = tier.pick(7, 10);
+    let depth = tier.pick(9, 11);
     let scns: Vec<C10> = grid(tier).into_iter().map(|cfg| C10 { cfg }).collect();
     rep.bounds = json!({"depth": depth, "configurations": scns.len(), "keys": 3});
     seq::par_configs(&scns, &mut rep, |s, r| {
